@@ -111,23 +111,7 @@ theorem totals_spec (big : D) (k : Nat) (prev : Nat × Nat) (t : List (Entry D))
     ((∃ j e, t[j]? = some e ∧ Eligible k j e) →
       ∃ j e, t[j]? = some e ∧ Eligible k j e ∧ (updateTotals big k prev t).pair = (j, e.2) ∧
         feq e.1 (updateTotals big k prev t).min = true ∧ (j ≥ k ∨ e.2 ≥ k)) := by
-  have h0 : TotInv big k prev [] { mean := 0.0, min := big, pair := prev, pairSet := false } :=
-    ⟨hbig, fun j e h => by simp at h, fun _ => ⟨rfl, rfl, rfl⟩, fun ⟨j, e, h, _⟩ => by simp at h⟩
-  have hinv := totals_fold big k prev hbig t [] _ hall h0
-  simp only [List.nil_append, List.length_nil] at hinv
-  unfold updateTotals
-  simp only []
-  refine ⟨hinv.minLe, ?_⟩
-  intro hex
-  obtain ⟨_, j, e, he, hel, hp, hq⟩ := hinv.some_seen hex
-  refine ⟨j, e, he, hel, hp, hq, ?_⟩
-  unfold Eligible at hel
-  by_cases h1 : j < k
-  · right
-    by_cases h2 : e.2 < k
-    · exact absurd ⟨h1, h2⟩ hel
-    · omega
-  · left; omega
+  exact totals_spec_aux big k prev t hbig hall
 
 /-- On an exact table all entries are proper distances, so `totals_spec` applies: the reported
 closest pair `(i, j)` is a pair of colours at the reported minimum distance with a free member. -/
@@ -136,23 +120,7 @@ theorem exact_totals (big : D) (dist : Nat → Nat → D) (n k : Nat) (prev : Na
     (helig : ∃ j e, t[j]? = some e ∧ Eligible k j e) :
     ∃ i m, i < n ∧ m < n ∧ m ≠ i ∧ (updateTotals big k prev t).pair = (i, m) ∧
       feq (dist i m) (updateTotals big k prev t).min = true ∧ (i ≥ k ∨ m ≥ k) := by
-  have hbig : isNaN big = false := (not_nan_of_lt (hd.lt_big 0 0)).2
-  have hall : ∀ e ∈ t, isNaN e.1 = false ∧ e.1 ≤ big := by
-    intro e he
-    obtain ⟨i, hi, hie⟩ := List.getElem_of_mem he
-    have hin : i < n := by rw [← hex.1]; exact hi
-    obtain ⟨m, _, _, hm, _⟩ := hex.2 i hin
-    rw [List.getElem?_eq_getElem hi, hie] at hm
-    have : e = (dist i m, m) := Option.some.inj hm
-    rw [this]
-    exact ⟨hd.notNaN i m, le_of_lt (hd.lt_big i m)⟩
-  obtain ⟨j, e, he, _, hp, hq, hfree⟩ := (totals_spec big k prev t hbig hall).2 helig
-  have hjn : j < n := by rw [← hex.1]; exact (List.getElem?_eq_some_iff.mp he).1
-  obtain ⟨m, hm, hmj, hme, _⟩ := hex.2 j hjn
-  rw [he] at hme
-  have : e = (dist j m, m) := Option.some.inj hme
-  subst this
-  exact ⟨j, m, hjn, hm, hmj, hp, hq, hfree⟩
+  exact exact_totals_aux big dist n k prev hd t hex helig
 
 end exactness
 
